@@ -193,3 +193,39 @@ func RandomClose(rng *wh.Rng) Scenario {
 	sc.Prog = p
 	return sc
 }
+
+// BeforeRunning: Close arrives before Run or inside Run's start-up (a plugin that closes the router, Close racing the
+// Run call) while the subscriber has a message ready and hands one more over inside its Close. On the unchanged router
+// such a Close waits for the never-started handlers and answers the timeout error (no promise); whatever it answers,
+// no invocation may start after a nil.
+func BeforeRunning(rng *wh.Rng, thorough bool) []Scenario {
+	var out []Scenario
+	for n := 1; n <= 2; n++ {
+		spec := func(h int) HandlerSpec {
+			return HandlerSpec{Preload: 1, LastOnClose: 1, IgnoreCtx: true, Outcomes: []string{"ok", "out"}}
+		}
+		hs, adds := addAll(n, spec)
+		out = append(out, Scenario{Handlers: hs, Seed: rng.Next(), Conf: n == 1, Tag: fmt.Sprintf("pre/close-then-run/%d", n),
+			Prog: append(append(prog(), adds...), "close:1", "wclose", "run", "wrr", "wacc")})
+		out = append(out, Scenario{Handlers: hs, Seed: rng.Next(), Conf: n == 1, Tag: fmt.Sprintf("pre/plugin-close/%d", n),
+			Prog: append(append(prog(), adds...), "plugclose", "run", "wrr", "wacc")})
+		out = append(out, Scenario{Handlers: hs, Seed: rng.Next(), Yield: 300, Conf: n == 1, Tag: fmt.Sprintf("pre/close-racing-run/%d", n),
+			Prog: append(append(prog(), adds...), "close:2", "run", "wclose", "wrr", "wacc")})
+	}
+	return out
+}
+
+// LockOrder: RunHandlers (Run's own, or a later call for two new handlers) is inside a slow Subscribe while Close is
+// called from several goroutines; every call must return (CloseTimeout 150 ms + the liveness bound of the scenario).
+func LockOrder(rng *wh.Rng, thorough bool) []Scenario {
+	var out []Scenario
+	for _, n := range []int{2, 3} {
+		hs, adds := addAll(n, func(h int) HandlerSpec { return HandlerSpec{SubGate: true} })
+		out = append(out, Scenario{Handlers: hs, Seed: rng.Next(), Conf: n == 2, WaitMs: 8000, Tag: fmt.Sprintf("lockorder/run/%d", n),
+			Prog: append(append(prog(), adds...), "run", "wev:sub", "close:3", "nap:40", "subgo", "wclose", "wrr")})
+	}
+	hs := []HandlerSpec{{}, {SubGate: true}, {SubGate: true}}
+	out = append(out, Scenario{Handlers: hs, Seed: rng.Next(), Conf: false, WaitMs: 8000, Tag: "lockorder/runhandlers",
+		Prog: prog("add:0", "run", "wrun", "add:1", "add:2", "rhbg", "wev:sub:2", "close:2", "nap:40", "subgo", "wclose", "wrh", "wrr")})
+	return out
+}
